@@ -236,7 +236,8 @@ PROPS["C17"] = {
     "harness": [{"bin": "h_otlp", "args": ["metrics"]}],
     "rule": ("cases = generated pmetric.Metrics batches (pools of 1-3 resources, 1-3 scopes, 1-4 metric identities of the five types, "
              "combined with repetition and interleaving; attributes of every AnyValue kind with nested arrays and maps of 0-4 entries, "
-             "growing re-used attribute lists; flagged points; per-point bounds incl. pairs differing only in a NaN or the sign of a zero; "
+             "growing re-used attribute lists; points of all five types flagged NoRecordedValue, with exemplars, number points also without "
+             "a value; per-point bounds incl. pairs differing only in a NaN or the sign of a zero; "
              "exemplars; float classes NaN payloads, -0.0, inf, subnormal, max), converted by go/pdata/metrics in all four "
              "combinations (unsorted|sorted writer x unsorted|sorted reader) and compared as multisets of data points by the harness's own "
              "flattening; a clean stream (no known trigger; any failure is a fresh violation) plus one stream per known trigger class; "
@@ -254,11 +255,14 @@ PROPS["C17"] = {
                     "modernc.org/b trees with a consistent comparator behave as sorted association lists"],
 }
 PROPS["C17"]["level_text"] = (
-    "Theorems over the converter models (Stef/Props/C17.lean): record count of the unsorted converter (general), of the sorting one "
-    "(general: all points but value-less number points; witness that this is not all points), AnyValue conversion round trip at full "
+    "Theorems over the converter models (Stef/Props/C17.lean): one record per data point for both writers (every batch, no side "
+    "condition), AnyValue conversion round trip at full "
     "strength (every value, any re-used destination), round trip of flattened data points through the unsorted converters for every clean "
     "batch (general, by induction over the trees with the writer's re-used record as state; `clean` excludes only the recorded findings); "
-    "the sorted round trip is covered by correspondence and the oracle only; the model is tied to go/pdata by op-for-op differential runs of all four converter combinations; the property oracle "
+    "sorting converters: for every clean batch with 64-bit typed keys the sorting writer's records read back as a permutation of "
+    "the data points and all four writer x reader combinations return the same multiset of data points (comparator faithfulness, "
+    "tree insertion = permutation, ToStef / ToOtlp visit every entry once; the sorting reader's theorem holds for ANY stream of typed "
+    "records); the model is tied to go/pdata by op-for-op differential runs of all four converter combinations; the property oracle "
     "(own multiset flattening) runs on a trigger-free stream and on one stream per recorded finding.")
 
 PROPS["C18"] = {
@@ -266,7 +270,8 @@ PROPS["C18"] = {
     "harness": [{"bin": "h_otlp", "args": ["traces"]}],
     "rule": ("cases = generated ptrace.Traces batches (repeated resources and scopes that the sorting mode merges, spans with 0-3 events "
              "and links varying in sequence, attributes of every kind, status, trace state, flags, parent ids, empty ids), converted by "
-             "go/pdata/traces in both modes, records read back with otelstef.SpansReader and compared field by field with the source span "
+             "go/pdata/traces in both modes (resource and scope attributes of every kind, twins differing only in the dropped-attributes "
+             "count), records read back with otelstef.SpansReader and compared field by field with the source span "
              "(sorting mode: as multisets); a case is non-trivial when it has at least two spans and two consecutive spans of a scope differ "
              "in their number of events or links (array re-use); distinct by hash of the encoded input"),
     "trusted_base": COMMON_TB + [
@@ -279,8 +284,9 @@ PROPS["C18"] = {
 }
 PROPS["C18"]["level_text"] = (
     "Theorems over the traces converter model (Stef/Props/C18.lean): one record per span (every batch, both modes), content of every "
-    "record at full strength (every batch; ids as injective hex text), the sorting mode writes a permutation of the spans when it only "
-    "merges indistinguishable resources/scopes (witnesses for the dropped-count merge and the CmpVal panic); tied to go/pdata/traces by op-for-op differential runs in both modes.")
+    "record at full strength (every batch; ids as injective hex text), the sorting mode writes a permutation of the spans of every batch whose resource/scope attribute "
+    "numbers are 64-bit patterns (the comparison model is total and compares the dropped counts since 679d5d5; merging only equal "
+    "resources/scopes is derived from the comparator, not assumed); tied to go/pdata/traces by op-for-op differential runs in both modes.")
 
 
 HOOK_COMMITS = ["dfe47e0", "f85f827"]
